@@ -148,6 +148,121 @@ def svd_sweep_parameters(inp):
     return {'violates': bool(bad), 'detail': bad[:4], 'n_bad': len(bad)}
 
 
+def _dense(arr):
+    """(dense tensor, legs) of a NodeArray: legs = list of ('L',) / ('A', site, k) / ('R',) in the order of the tensor's axes"""
+    import oqupy.backends.node_array as na
+    nd_, ed_ = na.tn.copy(arr.nodes)
+    c = nd_[arr.nodes[0]]
+    for x in arr.nodes[1:]:
+        c = c @ nd_[x]
+    order, legs = [], []
+    if arr.left:
+        order.append(ed_[arr.left_edge])
+        legs.append(('L',))
+    for i, es in enumerate(arr.array_edges):
+        for k, e in enumerate(es):
+            order.append(ed_[e])
+            legs.append(('A', i, k))
+    if arr.right:
+        order.append(ed_[arr.right_edge])
+        legs.append(('R',))
+    return c.reorder_edges(order).tensor, legs
+
+
+def node_array_operations(inp):
+    """NodeArray.zip_up / contract / apply_vector / apply_matrix / copy on random arrays, nothing truncated: the array afterwards is
+    the dense contraction of the two operands (open legs: left, per site own remaining legs then the other array's, right)"""
+    import itertools
+    import oqupy.backends.node_array as na
+    rng = np.random.default_rng(11)
+    bad = []
+
+    def mk(n, rank, left, right, bond=2, phys=3):
+        ts = []
+        for i in range(n):
+            shp = ([bond] if (i > 0 or left) else []) + [phys] * rank + ([bond] if (i < n - 1 or right) else [])
+            ts.append(rng.normal(size=shp) + 1j * rng.normal(size=shp))
+        return na.NodeArray(ts, left=left, right=right, name='x')
+
+    def expected(A, B, li, ri, keep_b):
+        ta, la = _dense(A)
+        tb, lb = _dense(B)
+        letters = iter('abcdefghijklmnopqrstuvwxyzABCDEFGHIJKLMNOPQRSTUVWXYZ')
+        ia = {l: next(letters) for l in la}
+        ib = {}
+        for l in lb:
+            if l[0] == 'A' and l[2] == 0:
+                ib[l] = ia[('A', li + l[1], 0)]
+            else:
+                ib[l] = next(letters)
+        out = []
+        if ('L',) in ia:
+            out.append(ia[('L',)])
+        elif ('L',) in ib:
+            out.append(ib[('L',)])
+        for i in range(len(A)):
+            covered = li <= i <= ri
+            out += [ia[l] for l in la if l[0] == 'A' and l[1] == i and not (covered and l[2] == 0)]
+            if covered and keep_b:
+                out += [ib[l] for l in lb if l[0] == 'A' and l[1] == i - li and l[2] != 0]
+        if ('R',) in ia:
+            out.append(ia[('R',)])
+        elif ('R',) in ib:
+            out.append(ib[('R',)])
+        return np.einsum(''.join(ia[l] for l in la) + ',' + ''.join(ib[l] for l in lb) + '->' + ''.join(out), ta, tb)
+    cases = []
+    for n, m in ((1, 1), (2, 1), (2, 2), (3, 1), (3, 2), (3, 3), (4, 2)):
+        for li in range(0, n - m + 1):
+            cases.append((n, m, li))
+    for n, m, li in cases:
+        ri = li + m - 1
+        for op in ('zip_up', 'contract'):
+            for direction in ('right', 'left'):
+                for (ra, rb) in (((1, 2), (2, 2), (2, 1)) if op == 'zip_up' else ((1, 1),)):
+                    for cp in (True, False):
+                        if op == 'contract' and ((direction == 'right' and not (ri < n - 1 or (li == 0 and ri == n - 1))) or (direction == 'left' and not li > 0)):
+                            continue
+                        lb, rb_ = (li == 0), (ri == n - 1)
+                        A, B = mk(n, ra, False, False), mk(m, rb, lb, rb_)
+                        want = expected(A, B, li, ri, op == 'zip_up')
+                        try:
+                            if op == 'zip_up':
+                                A.zip_up(B, axes=[(0, 0)], left_index=li, right_index=ri, direction=direction, copy=cp)
+                            else:
+                                A.contract(B, axes=[(0, 0)], left_index=li, right_index=ri, direction=direction, copy=cp)
+                            got, _ = _dense(A)
+                            for i, e in enumerate(A.bond_edges):
+                                if {id(e.node1), id(e.node2)} != {id(A.nodes[i]), id(A.nodes[i + 1])}:
+                                    raise ValueError('bond_edges[%d] does not join nodes[%d] and nodes[%d]' % (i, i, i + 1))
+                        except Exception as e:      # noqa
+                            bad.append({'operation': op, 'sites': n, 'other sites': m, 'left_index': li, 'direction': direction, 'copy': cp,
+                                        'raised / inconsistent': type(e).__name__ + ': ' + str(e)[:100]})
+                            continue
+                        if got.shape != want.shape or np.abs(got - want).max() > 1e-9:
+                            bad.append({'operation': op, 'sites': n, 'other sites': m, 'left_index': li, 'direction': direction, 'copy': cp, 'ranks': [ra, rb],
+                                        'deviation from the dense contraction': float(np.abs(got - want).max()) if got.shape == want.shape else 'shape'})
+    for n in (1, 2, 3):
+        for side in (True, False):
+            for op in ('apply_vector',):
+                A = mk(n, 1, True, True)
+                ta, la = _dense(A)
+                x = rng.normal(size=(2,) if op == 'apply_vector' else (2, 4))
+                getattr(A, op)(x, left=side)
+                got, _ = _dense(A)
+                pos = 0 if side else ta.ndim - 1
+                want = np.moveaxis(np.tensordot(ta, x, axes=([pos], [0])), -1, pos) if op == 'apply_matrix' else np.tensordot(ta, x, axes=([pos], [0]))
+                if got.shape != want.shape or np.abs(got - want).max() > 1e-9:
+                    bad.append({'operation': op, 'sites': n, 'at the left end': side})
+    A = mk(3, 2, True, True)
+    C = A.copy()
+    t0, _ = _dense(A)
+    C.apply_vector(rng.normal(size=(2,)), left=False)
+    t1, _ = _dense(A)
+    if np.abs(t0 - t1).max() > 0:
+        bad.append({'operation': 'copy', 'the original follows a change of the copy': True})
+    return {'violates': bool(bad), 'detail': bad[:5], 'n_bad': len(bad)}
+
+
 def cells_vs_quadrature(inp):
     """the cells a correlations object returns against direct integration of its own correlation function (owned by C12)"""
     from replay.c12 import cells_vs_quadrature as f
@@ -155,4 +270,4 @@ def cells_vs_quadrature(inp):
 
 
 # thorough tier (bounded native sweeps): (function, inputs, obligation of the open finding it reproduces or None)
-THOROUGH = [('independent_boson', {}, None), ('svd_sweep_parameters', {}, None)]
+THOROUGH = [('independent_boson', {}, None), ('svd_sweep_parameters', {}, None), ('node_array_operations', {}, None)]
